@@ -96,7 +96,7 @@ pub static INFO: PropInfo = PropInfo {
 };
 
 pub fn run(ctx: &Ctx, out: &mut Outcome) {
-    super::run_loop(ctx, out, 3200, 200_000, 14, one_run);
+    super::run_loop(ctx, out, 8000, 300_000, 14, one_run);
 }
 
 #[derive(Default)]
